@@ -377,3 +377,31 @@ Section Spec2.
          end
     else st.
 End Spec2.
+
+(* ---------------------------------------------------------------- the "if" direction, as the property states it *)
+Section FullStatement.
+  Variable select : bytes -> N -> N -> bool -> option ipraw.
+  Variable params_ok : N -> N -> option N -> bool.
+  Variable dst_port : bytes -> N -> N -> option N -> bool -> option N.
+  Variable geoip_ok : ipraw -> bool.
+  Variable covert_check : bytes -> option bytes.
+  Variable live : ipraw -> N -> bool.
+
+  (* the conditions the property lists for one family of a message *)
+  Definition listed_conditions (cfg : config) (r : reg) : bool :=
+    complete r && transport_enabled cfg (r_transport r) && negb (reg_phantom_blocked cfg r) &&
+    covert_ok covert_check r && (negb (needs_probe r) || negb (probe_live live r)).
+
+  (* connectable afterwards: a valid table entry for this registration *)
+  Definition connectable (st : table) (r : reg) : Prop :=
+    exists e, In e st /\ same_key (e_reg e) r = true /\ e_valid e = true.
+
+  (* after any history ws: a requested family that can be built and meets every listed condition is connectable *)
+  Definition if_direction_statement : Prop :=
+    forall cfg ws w p v6 r,
+      let st := fst (process_all select params_ok dst_port geoip_ok covert_check live cfg [] ws) in
+      w_payload w = Some p -> want cfg w p v6 = true ->
+      new_reg select params_ok dst_port geoip_ok cfg w p v6 = Ok r ->
+      listed_conditions cfg r = true ->
+      connectable (fst (process select params_ok dst_port geoip_ok covert_check live cfg st w)) r.
+End FullStatement.
